@@ -706,7 +706,8 @@ def bip38_create_new_encrypted_wif(intermediate_passphrase, compressed=True, see
     check = intermediate_password_bytes[-4:]
     intermediate_decode = intermediate_password_bytes[:-4]
     checksum = double_sha256(intermediate_decode)[0:4]
-    assert (check == checksum), "Invalid address, checksum incorrect"
+    if check != checksum:
+        raise BKeyError("Invalid intermediate passphrase, checksum incorrect")
     if len(intermediate_decode) != 49:
         raise ValueError(f"Invalid intermediate passphrase length (expected: 49, got: {len(intermediate_decode)})")
 
